@@ -56,3 +56,8 @@ Fixpoint loop_ {S : Type} (fuel : nat) (step : S -> S * bool) (s : S) : option S
   | O => None
   | S k => let '(s', brk) := step s in if brk then Some s' else loop_ k step s'
   end.
+
+(* added for the byte / hex decoders (uint/encoding.rs): uN::from_le_bytes / uN::from_be_bytes of core on a [u8; N/8] array, the
+   positional value of the bytes in base 256, least / most significant byte first *)
+Definition from_le_bytes_ (bs : list Z) : Z := fold_right (fun b acc => b + 256 * acc) 0 bs.
+Definition from_be_bytes_ (bs : list Z) : Z := from_le_bytes_ (rev bs).
